@@ -36,6 +36,7 @@ class Sim:
         self.max_events = 10_000
         self.attempt_no = {}
         self.numeric_enums = False
+        self.json_pool = None
 
     def ev(self, k_, **kw):
         if len(self.history) >= self.max_events:
@@ -65,14 +66,16 @@ class Sim:
             msg = out.pop("msg")
             out["reply"] = msg.SerializeToString(deterministic=True)
             if transport == "rest":
-                out["json"] = json_format.MessageToJson(msg, use_integers_for_enums=self.numeric_enums)
+                out["json"] = json_format.MessageToJson(msg, use_integers_for_enums=self.numeric_enums,
+                                                        descriptor_pool=self.json_pool)
         if "msgs" in out:
             msgs = out.pop("msgs")
             out["items"] = [x.SerializeToString(deterministic=True) for x in msgs]
             if transport == "rest":
                 cut = out.get("cut")
                 arr = msgs[:cut["after"]] if cut else msgs
-                out["json"] = json.dumps([json.loads(json_format.MessageToJson(x, use_integers_for_enums=self.numeric_enums))
+                out["json"] = json.dumps([json.loads(json_format.MessageToJson(x, use_integers_for_enums=self.numeric_enums,
+                                                                               descriptor_pool=self.json_pool))
                                           for x in arr], ensure_ascii=False)
         self.ev("server", op=op, n=n, lat=out.get("lat", 0.0), code=out.get("code"),
                 reply=(out["reply"].hex() if out.get("reply") is not None else None),
